@@ -319,6 +319,48 @@ theorem C19_field_accepts_in_range_partial (ty : IntTy) (bvt w : Nat) (v : Int) 
 example : (⟨false, 8⟩ : IntTy).holds 5 = true ∧ viewCouldWrite ⟨false, 8⟩ 8 3 5 = true ∧
     viewCouldWrite ⟨false, 8⟩ 8 3 8 = false ∧ viewRead ⟨false, 8⟩ 7 = 7 := by decide
 
+/-- Second proved fragment of the field clause: a signed enum whose field is as wide as its
+underlying type *and* as its container (`w = bits(ValueType) = bits(BitViewType::ValueType)`,
+e.g. an `int8_t` enum in a one-byte `struct` field) accepts exactly the values of its type and
+reads two's complement. -/
+theorem C19_field_signed_full_width_partial (ty : IntTy) (v : Int) (raw : Nat)
+    (hs : ty.signed = true) (hb : 0 < ty.bits) (hv : ty.holds v = true)
+    (hraw : (raw : Int) < pow2 ty.bits) :
+    viewCouldWrite ty ty.bits ty.bits v = true ∧ Spec.FieldRange true ty.bits v ∧
+    viewRead ty raw = Spec.FieldValue true ty.bits raw := by
+  have hp := pow2_pos ty.bits
+  have hh : pow2 ty.bits = 2 * pow2 (ty.bits - 1) := by
+    have : ty.bits = (ty.bits - 1) + 1 := by omega
+    rw [this, pow2_succ]; simp
+  have hv' : -(pow2 (ty.bits - 1)) ≤ v ∧ v ≤ pow2 (ty.bits - 1) - 1 := by
+    simpa [IntTy.holds, IntTy.minVal, IntTy.maxVal, hs] using hv
+  refine ⟨?_, ?_, ?_⟩
+  · simp only [viewCouldWrite, decide_true, Bool.true_or, Bool.and_true, decide_eq_true_eq]
+    have hB : wrap ⟨false, ty.bits⟩ v = v % pow2 ty.bits := by simp [wrap]
+    rw [hB]
+    by_cases h0 : 0 ≤ v
+    · rw [Int.emod_eq_of_lt h0 (by omega)]
+      exact (wrap_of_holds ty v hb hv).symm
+    · have e1 : (v + pow2 ty.bits) % pow2 ty.bits = v + pow2 ty.bits :=
+        Int.emod_eq_of_lt (by omega) (by omega)
+      have e2 : v % pow2 ty.bits = v + pow2 ty.bits := by rw [← e1, Int.add_emod_right]
+      rw [e2]
+      simp only [wrap, hs, Bool.true_and, decide_eq_true_eq, e1]
+      have : v + pow2 ty.bits ≥ pow2 (ty.bits - 1) := by omega
+      simp only [this, if_true]
+      omega
+  · simp only [Spec.FieldRange, if_true]
+    show -(pow2 (ty.bits - 1)) ≤ v ∧ v < pow2 (ty.bits - 1)
+    omega
+  · simp only [viewRead, wrap, hs, Bool.true_and, decide_eq_true_eq, Spec.FieldValue, true_and]
+    have e : (raw : Int) % pow2 ty.bits = raw := Int.emod_eq_of_lt (by omega) hraw
+    rw [e]
+    show _ = if (raw : Int) ≥ pow2 (ty.bits - 1) then (raw : Int) - pow2 ty.bits else (raw : Int)
+    rfl
+
+example : (⟨true, 8⟩ : IntTy).holds (-1) = true ∧ viewCouldWrite ⟨true, 8⟩ 8 8 (-1) = true ∧
+    viewRead ⟨true, 8⟩ 255 = -1 := by decide
+
 /-- Counterexample for signed enums (finding `signed-enum-in-field-narrower-than-underlying-
 type`, F14): `[maximum_bits: 8] [is_signed: true] NEG = -1` in a 4-bit field of an 8-bit
 `bits`: the raw bits `0xF` (two's-complement −1 in 4 bits) read as 15, `NEG` cannot be
